@@ -75,6 +75,59 @@ pub fn main(args: &[String]) -> i32 {
             let r = window!({ ed25519::signature(black_box(&msg), black_box(&kp)) });
             out[..64].copy_from_slice(&r);
         }
+        // signing with an extended secret key (scalar || prefix): hand-built scalars on both sides of the group order are legal inputs
+        "ed_sign_ext" => {
+            let ext: [u8; 64] = arr(&secret);
+            let r = window!({ ed25519::signature_extended(black_box(&msg), black_box(&ext)) });
+            out[..64].copy_from_slice(&r);
+        }
+        // key exchange on the Edwards keys: secret = private key, public = the peer's public key
+        "ed_exchange" => {
+            let sk: [u8; 32] = arr(&secret);
+            let (_, peer) = ed25519::keypair(&[0x3cu8; 32]);
+            let pk: [u8; 32] = if public.len() == 32 { arr(&public) } else { peer };
+            let r = window!({ ed25519::exchange(black_box(&pk), black_box(&sk)) });
+            out[..32].copy_from_slice(&r);
+        }
+        // the x25519 newtype interface: construction of the secret key and the exchange
+        "x25519_newtype" => {
+            let n: [u8; 32] = arr(&secret);
+            let mut p = [0u8; 32];
+            p[0] = 9;
+            let r = window!({
+                let sk = cryptoxide::x25519::SecretKey::from(*black_box(&n));
+                let pk = cryptoxide::x25519::PublicKey::from(p);
+                cryptoxide::x25519::dh(&sk, &pk)
+            });
+            out[..32].copy_from_slice(r.as_ref());
+        }
+        // AEAD tag verification against a candidate tag = genuine tag xor mask (the "secret" argument is the mask: where the first wrong
+        // byte is must not show): one-shot decrypt and the incremental finalize
+        "aead_decrypt" | "aead_finalize" => {
+            use cryptoxide::chacha20poly1305::{ChaChaPoly1305, Context, DecryptionResult};
+            let (key, nonce, aad) = ([0x42u8; 32], [7u8; 12], [1u8, 2, 3]);
+            let pt: Vec<u8> = (0..40u8).collect();
+            let mut ct = vec![0u8; 40];
+            let mut tag = [0u8; 16];
+            ChaChaPoly1305::<20>::new(&key, &nonce, &aad).encrypt(&pt, &mut ct, &mut tag);
+            let mask: [u8; 16] = arr(&secret);
+            for i in 0..16 {
+                tag[i] ^= mask[i];
+            }
+            let mut back = vec![0u8; 40];
+            let ok = if name == "aead_decrypt" {
+                let mut c = ChaChaPoly1305::<20>::new(&key, &nonce, &aad);
+                window!({ c.decrypt(black_box(&ct), &mut back, black_box(&tag)) })
+            } else {
+                let mut c = Context::<20>::new(&key, &nonce);
+                c.add_data(&aad);
+                let mut d = c.to_decryption();
+                d.decrypt(&ct, &mut back);
+                let t = Tag(tag);
+                window!({ matches!(d.finalize(black_box(&t)), DecryptionResult::Match) })
+            };
+            out[0] = ok as u8;
+        }
         "poly1305" => {
             let key: [u8; 32] = arr(&secret);
             let mut tag = [0u8; 16];
